@@ -6,7 +6,8 @@ PID = "C11"
 RULE = ("sat_witness, first/last_valuation, most_positive/most_negative_valuation, first/last/most_fixed/most_free/necessary_clause, "
         "is_clause, is_valuation on EVERY function of <=3 variables (quick) / of <=4 variables (thorough: all 65,536), each also embedded "
         "into 4..9 variables on a random variable subset (level gaps, variables above the root), plus random canonical functions over "
-        "5..10 variables; random_valuation/random_clause with every RNG script of length <= nvars on the <=3-variable functions and sampled "
+        "5..10 variables, plus non-REDUCED diagrams of the benign shape (redundant tests over non-false children, children before parents, "
+        "everything reachable; is_clause not judged there); random_valuation/random_clause with every RNG script of length <= nvars on the <=3-variable functions and sampled "
         "scripts (incl. exhausted ones) elsewhere. Every step is judged twice: (1) against an independent Python oracle over the raw node "
         "array (enumerated satisfying set / enumerated root-to-1 paths): None iff contradiction, min/max of the satisfying set, maximal "
         "count of true/false variables and least such, path membership, max/min number of literals, divergence rule for first/last clause, "
@@ -89,6 +90,12 @@ def programs(rng, tier):
         b = random_bdd(rng, nv, max_support=min(nv, rng.choice([3, 5, 6, 7])))
         ns = 3 if quick else 4
         progs.append(family(b, [rand_script(rng, nv) for _ in range(ns)], [rand_script(rng, nv) for _ in range(ns)]))
+    # valid NON-REDUCED diagrams of the benign shape (redundant tests over non-false children; children stored before parents,
+    # root last, everything reachable), as from_nodes / the readers accept them
+    for _ in range(250 if quick else 8000):
+        nv = rng.randint(2, 8)
+        b = redundant_topo_variant(rng, random_bdd(rng, nv, max_support=min(nv, 5)), k=rng.randint(1, 3))
+        progs.append(family(b, [rand_script(rng, nv) for _ in range(2)], [rand_script(rng, nv) for _ in range(2)]))
     # cubes and single valuations over many variables (is_clause / is_valuation / necessary_clause positives)
     for _ in range(60 if quick else 2000):
         nv = rng.randint(1, 10)
@@ -99,6 +106,23 @@ def programs(rng, tier):
         b = bdd_from_fn(nv, vs, lambda a, cells=cells: all(a[i] == cells[i] for i in a))
         progs.append(family(b, [rand_script(rng, nv)], [rand_script(rng, nv)]))
     return progs
+
+
+def benign_nonreduced(nodes):
+    """valid, children before parents, root last and everything reachable from it, no decision node with both children 0"""
+    if not is_wf(nodes) or len(nodes) < 3:
+        return False
+    n = len(nodes)
+    for i in range(2, n):
+        v, l, h = nodes[i]
+        if l >= i or h >= i or (l == 0 and h == 0):
+            return False
+    reach = {n - 1}
+    for i in range(n - 1, 1, -1):
+        if i in reach:
+            reach.add(nodes[i][1])
+            reach.add(nodes[i][2])
+    return all(i in reach for i in range(2, n))
 
 
 # ----------------------------------------------------------------------------- independent oracle
@@ -230,8 +254,16 @@ def judge(st, V):
         return
     canon, _ = is_canonical(nodes)
     if not canon:
-        V.skipped += 1   # the property quantifies over Bdd values (canonical arrays)
-        return
+        # The property quantifies over Bdd values, which the library keeps canonical (C02); the selectors rely on that
+        # (on arbitrary valid arrays they panic, answer wrongly or — random_clause on a diagram with a non-terminal false node —
+        # do not return: recorded in DESIGN.md as outside the quantifier).  One non-canonical shape is judged all the same,
+        # because the pinned selectors do meet the property on it and defects confined to it would otherwise go unseen:
+        # non-REDUCED diagrams whose only irregularity is redundant tests over non-false children (`benign_nonreduced`).
+        # `is_clause` is structural and answers false for a cube with a redundant test: not judged there.
+        if not benign_nonreduced(nodes) or op == "is_clause":
+            V.skipped += 1
+            return
+        V.count("operand:non-reduced(benign)")
     machinery_guard(st)
     V.count("nv:%d" % nodes[0][0])
     V.count("size:%s" % ("1-2" if len(nodes) < 3 else "3-6" if len(nodes) < 7 else "7-20" if len(nodes) < 21 else "21+"))
